@@ -60,7 +60,9 @@ EosCfgs == {Cfg("eos", "-", "-", 0, 0, s, FALSE, 0, 0, p, 0, FALSE) : s \in BOOL
 MercCfgs == {Cfg("mercurius", "-", "-", 0, 0, s, FALSE, 0, 0, "-", 0, FALSE) : s \in BOOLEAN}
 JanusCfgs == {Cfg("janus", "-", "-", 0, 0, TRUE, FALSE, 0, 0, "-", o, FALSE) : o \in JanusOrders}
 OtherCfgs == {Cfg("leapfrog", "-", "-", 0, 0, TRUE, FALSE, 0, 0, "-", 0, FALSE), Cfg("sei", "-", "-", 0, 0, TRUE, FALSE, 0, 0, "-", 0, FALSE)}
-AllCfgs == WhfastCfgs \cup SabaCfgs \cup EosCfgs \cup MercCfgs \cup JanusCfgs \cup OtherCfgs
+(* WHFast512: no safe mode (always leaves the last half drift pending); tcorr = gr_potential *)
+Wh512Cfgs == {Cfg("whfast512", "-", "-", 0, 0, FALSE, kp, 0, gr, "-", 0, FALSE) : kp \in BOOLEAN, gr \in {0, 1}}
+AllCfgs == WhfastCfgs \cup SabaCfgs \cup EosCfgs \cup MercCfgs \cup JanusCfgs \cup OtherCfgs \cup Wh512Cfgs
 
 -----------------------------------------------------------------------------
 (* WHFast *)
@@ -195,22 +197,30 @@ JanusLoop(o, i) == IF i >= JS(o) THEN <<>>
                    ELSE <<O("jD", (Gg(o, i - 1) + Gg(o, i)) \div 2), O("jV", Gg(o, i))>> \o JanusLoop(o, i + 1)
 JanusStep(o) == <<O("jD", Gg(o, 0) \div 2), O("jV", Gg(o, 0))>> \o JanusLoop(o, 1) \o <<O("jD", Gg(o, JS(o) - 1) \div 2)>>
 
+(* WHFast512 (democratic heliocentric, everything in part1): the jump commutes with the planet-planet kicks and is done in
+   one piece; with the GR potential the kicks no longer cancel in pairs and the jump is split around them *)
+Wh512Step(c, s) == (IF s THEN <<FI, O("K", H), O("C", H)>> ELSE <<O("K", U), O("C", U)>>)
+                   \o (IF c.tcorr = 1 THEN <<O("J", H), O("V", U), O("J", H)>> ELSE <<O("J", U), O("V", U)>>)
+Wh512Sync == <<O("K", H), O("C", H), TI>>
+
 (* MERCURIUS *)
 MercPart2(s) == <<O("mV", IF s THEN H ELSE U), O("mJ", H), O("mC", U), O("mK", U), O("mE", U), O("mJ", H)>>
 MercSync == <<O("mV", H), TI>>
 
 -----------------------------------------------------------------------------
 HasCoords(c) == c.fam \in {"whfast", "saba", "mercurius"}
-HasFlags(c) == c.fam \in {"whfast", "saba", "eos", "mercurius"}
+HasFlags(c) == c.fam \in {"whfast", "saba", "eos", "mercurius", "whfast512"}
 
 Part1(c, s) == CASE c.fam = "whfast" -> WhPart1(c, s) [] c.fam = "saba" -> SabaPart1(c, s) [] OTHER -> <<>>
 Part2(c, s) == CASE c.fam = "whfast" -> WhPart2(c) [] c.fam = "saba" -> SabaPart2(c)
                  [] c.fam = "eos" -> EosPart2(c, s) [] c.fam = "mercurius" -> MercPart2(s)
                  [] c.fam = "janus" -> JanusStep(c.order)
+                 [] c.fam = "whfast512" -> Wh512Step(c, s)
                  [] c.fam = "leapfrog" -> <<O("lfD", H), O("lfV", U), O("lfD", H)>>
                  [] c.fam = "sei" -> <<O("seiH", H), O("seiP", U), O("seiH", H)>>
 SyncOps(c) == CASE c.fam = "whfast" -> WhSync(c) [] c.fam = "saba" -> SabaSync(c)
-                [] c.fam = "eos" -> EosSync(c) [] c.fam = "mercurius" -> MercSync [] OTHER -> <<>>
+                [] c.fam = "eos" -> EosSync(c) [] c.fam = "mercurius" -> MercSync
+                [] c.fam = "whfast512" -> Wh512Sync [] OTHER -> <<>>
 
 (* one call of reb_simulation_step from flag state (s, rc).  With variational particles WHFast
    synchronises at the end of every step (MEGNO needs synchronised x, v, a); when
@@ -268,8 +278,8 @@ Tol == Len(Completed) + 2
 Balanced ==
   /\ Abs(SumOf(Completed, DriftNames) - steps * U) <= Tol
   /\ Abs(SumOf(Completed, KickNames) - steps * U) <= Tol
-  /\ (cfg.fam \in {"whfast", "saba", "mercurius"} => Abs(SumOf(Completed, ComNames) - steps * U) <= Tol)
-  /\ ((cfg.fam = "whfast" /\ cfg.kernel = "default") \/ cfg.fam = "mercurius" => SumOf(Completed, JumpNames) = steps * U)
+  /\ (cfg.fam \in {"whfast", "saba", "mercurius", "whfast512"} => Abs(SumOf(Completed, ComNames) - steps * U) <= Tol)
+  /\ ((cfg.fam = "whfast" /\ cfg.kernel = "default") \/ cfg.fam \in {"mercurius", "whfast512"} => SumOf(Completed, JumpNames) = steps * U)
 
 (* canonical form: drop coordinate transformations, cancel adjacent inverse pairs (corrector and
    its inverse, post- and pre-processor), merge adjacent operators of the same kind; K and C commute *)
